@@ -424,19 +424,32 @@ impl FileSpec {
         files
             .iter()
             .filter(|path| {
+                let name = path.file_name().unwrap_or_default().to_string_lossy();
                 // if suffix is specified, it must match
-                if let Some(suffix) = o_suffix {
-                    path.extension().is_some_and(|ext| {
-                        let s = ext.to_string_lossy();
-                        s == suffix
-                    })
-                } else {
-                    true
-                }
-            })
-            .filter(|path| {
+                let stem = match o_suffix {
+                    Some(suffix) => {
+                        match name.strip_suffix(suffix).and_then(|n| n.strip_suffix('.')) {
+                            Some(stem) => stem,
+                            None => return false,
+                        }
+                    }
+                    None => &name,
+                };
+                // compressed files carry the configured suffix in front of ".gz"
+                let stem = match (o_suffix, self.o_suffix.as_deref()) {
+                    (Some("gz"), Some(own_suffix)) if own_suffix != "gz" => {
+                        match stem
+                            .strip_suffix(own_suffix)
+                            .and_then(|n| n.strip_suffix('.'))
+                        {
+                            Some(stem) => stem,
+                            None => return false,
+                        }
+                    }
+                    _ => stem,
+                };
+
                 // infix filter must pass
-                let stem = path.file_stem().unwrap(/* CANNOT FAIL*/).to_string_lossy();
                 let infix_start = if fixed_name_part.is_empty() {
                     0
                 } else {
@@ -449,8 +462,14 @@ impl FileSpec {
                 let Some(maybe_infix) = stem.get(infix_start..).filter(|s| !s.is_empty()) else {
                     return false;
                 };
-                let end = maybe_infix.find('.').unwrap_or(maybe_infix.len());
-                infix_filter.filter_infix(&maybe_infix[..end])
+                // behind the infix, only ".restart-<number>" is allowed
+                let (infix, rest) = match maybe_infix.find(".restart-") {
+                    Some(index) => maybe_infix.split_at(index),
+                    None => (maybe_infix, ""),
+                };
+                (rest.is_empty()
+                    || (rest.len() == 13 && rest[9..].bytes().all(|b| b.is_ascii_digit())))
+                    && infix_filter.filter_infix(infix)
             })
             .map(PathBuf::clone)
             .collect::<Vec<PathBuf>>()
